@@ -58,4 +58,7 @@ struct Target {
 
 int main_driver(int argc, char** argv, const Target& t);
 
+// true when the check runs in the thorough tier (targets may widen their bounds)
+bool thorough();
+
 }  // namespace vf
